@@ -45,6 +45,28 @@ impl<'fds, 'buf> UnmarshalContext<'fds, 'buf> {
         self.depth = self.depth.saturating_sub(1);
     }
 
+    /// Runs `f` nested `levels` containers deeper (a dict counts twice, once for the array and once for the dict
+    /// entries). Fails without running `f` if that is deeper than the protocol allows.
+    pub fn in_container<T>(
+        &mut self,
+        levels: usize,
+        f: impl FnOnce(&mut Self) -> UnmarshalResult<T>,
+    ) -> UnmarshalResult<T> {
+        let mut entered = 0;
+        let mut result = Ok(());
+        while entered < levels && result.is_ok() {
+            result = self.enter_container();
+            if result.is_ok() {
+                entered += 1;
+            }
+        }
+        let result = result.and_then(|_| f(self));
+        for _ in 0..entered {
+            self.leave_container();
+        }
+        result
+    }
+
     /// How many containers the values read from this context are nested in
     pub fn depth(&self) -> usize {
         self.depth
